@@ -35,6 +35,7 @@ def _case(draw):
     sched = draw(sc.schedules(max_len=120))
     case = {'n': n, 'edges': edges, 'outcomes': outs, 'workers': workers, 'sched': sched}
     case.update(draw(sc.extras(n)))
+    case.update(draw(sc.preludes(n, with_init=False)))
     return case
 
 
